@@ -936,6 +936,23 @@ class FutureSym:
             st = st.fork()
             st.ghost['cancelled'] = z3.Concat(st.ghost.get('cancelled', V.EMPTY), z3.Unit(recv))
             return [('ok', st, fresh('cancel_ret', z3.BoolSort()))]
+        if name == 'exception':
+            # Future.exception(): None for a result; the stored exception for a failure -- but a CANCELLED future does not return its CancelledError, it RAISES it
+            # (as result() does).  A cancelled future is one whose outcome is (a subclass of) futures.CancelledError / asyncio.CancelledError.
+            st = st.fork()
+            st.ghost['#blocking'] = st.ghost.get('#blocking', ()) + ((node.lineno, 'future.exception()', ()),)
+            outs = []
+            for k, s, v in self.outcome(ex, st, recv, node):
+                if k == 'ok':
+                    outs.append(('ok', s, NONE))
+                else:
+                    canc = z3.Or(V.isinst(v, 'futures.CancelledError'), V.isinst(v, 'asyncio.CancelledError'))
+                    s1, s2 = s.fork().assume(canc), s.fork().assume(z3.Not(canc))
+                    if ex.feasible(s1):
+                        outs.append(('raise', s1, v))
+                    if ex.feasible(s2):
+                        outs.append(('ok', s2, v))
+            return outs
         raise Unsupported(f'future.{name}()')
 
 
@@ -1130,7 +1147,9 @@ class SharedFuture(Obj):
     def m_cancelled(self, ex, st, args, kwargs, node):
         st = st.fork()
         self._interfere(ex, st)
-        return [('ok', st, self.state(st) == CANCELLED)]
+        seen = self.state(st) == CANCELLED
+        st.ghost['cancelled_seen'] = st.ghost.get('cancelled_seen', ()) + (seen,)         # what each cancelled() call of this path answered
+        return [('ok', st, seen)]
 
     def m_done(self, ex, st, args, kwargs, node):
         st = st.fork()
@@ -1189,7 +1208,9 @@ class SharedFuture(Obj):
 
     def setattr(self, ex, st, name, v, node):
         if name == 'data':
-            return [('ok', st.fork(), None)]
+            st = st.fork()
+            st.ghost['fut_data_assigned'] = v          # what the code stored as fut.data (for the unit to inspect: the deadline)
+            return [('ok', st, None)]
         return super().setattr(ex, st, name, v, node)
 
 
@@ -1204,6 +1225,12 @@ class FutData(Obj):
 
     def setitem(self, ex, st, idx, v, node):
         return [('ok', st, None)]
+
+    def _iterate(self, ex, st, args, kwargs, node):
+        # the dict is SHARED between the caller (which adds keys -- e.g. 't_cancelled' right after cancel()) and the gather thread: iterating over it while the other
+        # side inserts raises RuntimeError("dictionary changed size during iteration")
+        return [('ok', st, fresh('futdata_view')), ex.raise_new(st.fork(), 'RuntimeError')]
+    m_items = m_keys = m_values = m_copy = _iterate
 
     def getitem(self, ex, st, idx, node):
         hook = getattr(ex.unit, 'fut_data', None)
